@@ -214,10 +214,36 @@ func decEvent(k string, b []byte) M {
 			ev["sval"] = payloadToVal(k, sp)
 		}
 	}
+	// ... and into ONE long-lived MACCommand value per CID, which serves both directions (a CID means another command,
+	// with another layout, in the other direction); now and then it holds a command of the other direction first
+	mc := streamCmds[cid]
+	if mc == nil {
+		mc = &lorawan.MACCommand{}
+		streamCmds[cid] = mc
+	}
+	if curCtx != nil && curCtx.rnd.Intn(3) == 0 {
+		if ok, found := cmdTab[key(map[string]string{"up": "down", "down": "up"}[dir], cid)]; found {
+			observeFast(func() error {
+				return mc.UnmarshalBinary(dir != "up", append([]byte{byte(cid)}, curCtx.bytesN(ok.size)...))
+			})
+		}
+	}
+	kept := *mc
+	cres, _ := observeFast(func() error { return mc.UnmarshalBinary(dir == "up", append([]byte{byte(cid)}, b...)) })
+	ev["cerr"] = cres
+	if cres == "" && mc.Payload != nil && !reflect.ValueOf(mc.Payload).IsNil() {
+		if reflect.TypeOf(mc.Payload) == reflect.TypeOf(cmdTab[k].mk()) {
+			ev["cval"] = payloadToVal(k, mc.Payload)
+		} else {
+			ev["cerr"] = "wrongtype"
+		}
+	}
+	_ = kept
 	return ev
 }
 
 var streamPayloads = map[string]lorawan.MACCommandPayload{}
+var streamCmds = map[int]*lorawan.MACCommand{}
 
 // streamEvent puts cmds into FOpts (where="fopts") or a port-0 FRMPayload (where="frm") of a data
 // frame, serialises the frame, deserialises it and decodes the commands again.
